@@ -18,7 +18,7 @@ CHECKS = {
          "DESIGN.md §5 C05"),
  "C02": ("exploration",
          "runtime monitoring: differential oracle (reference-model verdict function) on request lists sent to the real POST /chain/merkleroot/verify handler and service over the real SQLite stack, at every reorganisation point of seeded histories",
-         "Verdicts, block hashes, per-item order/length and the aggregate are compared with the statement's three-way rule for thousands of request lists on stores with reorganisations, stale blocks sharing heights with longest blocks, orphans and duplicate merkle roots, for excess in {0,1,6,100,MaxInt32}; the same lists are re-derived after every later reorganisation so demoted roots must stop being CONFIRMED. Sampled, not exhaustive.",
+         "Verdicts, block hashes, per-item order/length and the aggregate are compared with the statement's three-way rule for thousands of request lists on stores with reorganisations, stale blocks sharing heights with longest blocks, orphans and duplicate merkle roots, for excess in {0,1,6,100,MaxInt32,2^31,2^40}; the same lists are re-derived after every later reorganisation so demoted roots must stop being CONFIRMED. Sampled, not exhaustive.",
          "Trusted: reference model; lower-case hex roots only; excess <= MaxInt32; SQLite only.",
          "DESIGN.md §5 C02"),
  "C03": ("exploration",
